@@ -117,11 +117,12 @@ class extract_visitor(NodeVisitor):
         cur = self.flow
 
         body_start = self.make_flow('for', [cur])
+        start = get_first_body_node_loc(node.body) or np(node.body[0])
         for nn, _idx in get_indexes_for_target(node.target, [], []):
             if isinstance(nn, (Attribute,) + UNSUPPORTED_ASSIGMENTS):
                 continue
             name = nn  # type: ast.Name # type: ignore[assignment]
-            body_start.add_name(AssignedName(name.id, np(node.body[0]), np(name), node.iter))
+            body_start.add_name(AssignedName(name.id, start, np(name), node.iter))
         # a subscript or attribute target is evaluated at every iteration: for values[i] in ...
         self.visit_in_flow(node.target, body_start)
         body = self.visit_in_flow(node.body, body_start)
